@@ -7,6 +7,7 @@ import (
 	"encoding/json"
 	"fmt"
 	"os"
+	"os/exec"
 	"sort"
 	"strings"
 	"time"
@@ -330,6 +331,39 @@ func Main(id string, scenarios []Scenario, extra Extra, seqParts ...SeqPart) {
 			}
 		})
 		run.Set("explicit_state_parts", info)
+	}
+
+	if aux := os.Getenv("VERIF_AUX_BIN"); aux != "" && only == "" {
+		cmd := exec.Command(aux)
+		cmd.Env = append(os.Environ(), "GORACE=halt_on_error=1 exitcode=66")
+		var stderr strings.Builder
+		cmd.Stderr = &stderr
+		outb, err := cmd.Output()
+		var a struct {
+			Evaluations int64                  `json:"evaluations"`
+			Viol        []SeqViol              `json:"viol"`
+			Info        map[string]interface{} `json:"info"`
+		}
+		if err != nil {
+			if ee, ok := err.(*exec.ExitError); ok && ee.ExitCode() == 66 {
+				msg := stderr.String()
+				if len(msg) > 3000 {
+					msg = msg[:3000]
+				}
+				run.Violate(id+"|free-running|data-race-detected", "the race detector reported a data race in the free-running pass:\n"+msg, map[string]interface{}{"kind": "aux"})
+			} else {
+				run.Infra("auxiliary binary failed: " + err.Error() + "\n" + stderr.String())
+			}
+		} else if jerr := json.Unmarshal(outb, &a); jerr != nil {
+			run.Infra("auxiliary binary: bad output: " + jerr.Error())
+		} else {
+			xTraces += a.Evaluations
+			xTrans += a.Evaluations
+			for _, v := range a.Viol {
+				run.Violate(id+"|"+v.Sig, v.What, map[string]interface{}{"kind": "aux"})
+			}
+			run.Set("auxiliary_free_running_part", a.Info)
+		}
 	}
 
 	stats := map[string]*scenStat{}
